@@ -513,18 +513,51 @@ func (b recBody) Close() error {
 	return nil
 }
 
+// endlessReader delivers prefix and then garbage for ever: a response that
+// never terminates. Whoever is still reading it 20000 reads after the prefix
+// has been consumed is not going to stop (logical livelock monitor).
+type endlessReader struct {
+	prefix []byte
+	off    int
+	extra  int
+}
+
+func (e *endlessReader) Read(p []byte) (int, error) {
+	if e.off < len(e.prefix) {
+		n := copy(p, e.prefix[e.off:])
+		e.off += n
+		return n, nil
+	}
+	e.extra++
+	if e.extra > 20000 {
+		panic("livelock: a response body that is malformed after its first bytes and never ends is still being read after 20000 further reads")
+	}
+	for i := range p {
+		p[i] = '#'
+	}
+	return len(p), nil
+}
+
 type fakeTransport struct {
-	status int
-	body   []byte
-	mu     sync.Mutex
-	opened int
-	closed int
+	status  int
+	body    []byte
+	endless bool
+	mu      sync.Mutex
+	opened  int
+	closed  int
 }
 
 func (t *fakeTransport) RoundTrip(req *http.Request) (*http.Response, error) {
 	t.mu.Lock()
 	t.opened++
 	t.mu.Unlock()
+	if t.endless {
+		return &http.Response{
+			StatusCode: t.status, Status: fmt.Sprintf("%d %s", t.status, http.StatusText(t.status)),
+			Proto: "HTTP/1.1", ProtoMajor: 1, ProtoMinor: 1, Header: http.Header{"Content-Type": {"application/json"}},
+			Body: recBody{Reader: &endlessReader{prefix: t.body}, mu: &t.mu, closed: &t.closed}, ContentLength: -1, Request: req,
+		}, nil
+	}
 	return &http.Response{
 		StatusCode: t.status, Status: fmt.Sprintf("%d %s", t.status, http.StatusText(t.status)),
 		Proto: "HTTP/1.1", ProtoMajor: 1, ProtoMinor: 1, Header: http.Header{"Content-Type": {"application/json"}},
@@ -564,6 +597,56 @@ func unsupportedRead[T any](doc string) int {
 		n += len(helper.ChanToSlice(c.ReadFromReader(strings.NewReader(doc))))
 	}
 	return n
+}
+
+// tiingoEndless: a response whose body starts like a document and then never
+// ends. The repository must give up where the text stops being well formed (or,
+// for an error status, without reading it at all), close the body and close the
+// stream; it must not try to read the body to its end.
+func tiingoEndless(cc *run.Case, census *mon.Census, status int) bool {
+	prefix := tiingoDoc(cc.R, 2)
+	prefix = prefix[:len(prefix)-1] // drop the closing bracket: the array goes on ... with garbage
+	cc.Desc(map[string]any{"reader": "tiingo", "status": status, "body": string(prefix) + " followed by '#' for ever"})
+	census.Begin()
+	ft := &fakeTransport{status: status, body: prefix, endless: true}
+	old := http.DefaultTransport
+	http.DefaultTransport = ft
+	defer func() { http.DefaultTransport = old }()
+	repo := asset.NewTiingoRepository("key")
+	repo.Logger = discardLogger
+	repo.BaseURL = "http://tiingo.invalid"
+	c, err := repo.GetSince("aapl", day0)
+	if status != 200 {
+		if err == nil {
+			helper.Drain(c)
+			cc.Viol("", fmt.Sprintf("Tiingo GetSince: HTTP status %d with an endless body surfaced as a successful stream", status), nil)
+			return false
+		}
+	} else {
+		if err != nil {
+			cc.Viol("", "Tiingo GetSince: status 200 returned an error: "+err.Error(), nil)
+			return false
+		}
+		got := helper.ChanToSlice(c)
+		want := refTiingo(append(append([]byte(nil), prefix...), []byte("####")...))
+		if len(got) != len(want) {
+			cc.Viol("", fmt.Sprintf("Tiingo GetSince delivered %d snapshots from a body that is well formed for %d records and garbage after that", len(got), len(want)), nil)
+			return false
+		}
+		cc.Count("rows_delivered", int64(len(got)))
+	}
+	if lk := census.End(); lk != nil && !lk.Unsettled {
+		cc.Viol("", fmt.Sprintf("Tiingo GetSince on an endless body left %d goroutine(s) behind: %s", lk.Count, mon.LeakSite(lk.Stacks[0])), nil)
+		return false
+	}
+	ft.mu.Lock()
+	defer ft.mu.Unlock()
+	if ft.closed < ft.opened {
+		cc.Viol("", fmt.Sprintf("Tiingo GetSince (status %d): the endless response body was never closed", status), nil)
+		return false
+	}
+	cc.Count("endless_bodies", 1)
+	return true
 }
 
 var logCountSeq atomic.Int64
@@ -903,6 +986,9 @@ func c19(ctx *run.Ctx) {
 				if !tiingoCase(cc, census, status, body) {
 					return
 				}
+			}
+			if !tiingoEndless(cc, census, status) {
+				return
 			}
 			cc.Count("cmp:tiingo", 1)
 		})
